@@ -1,7 +1,7 @@
 (** C14 -- scripts execute exactly the command sequence their block structure
     prescribes; unbalanced scripts are diagnosed. Statements only. *)
 From Cicada Require Import Base.Chars Base.Peg Gen.LocustGrammar Model.Script Model.ScriptAst
-  Proofs.ScriptProofs Proofs.PegProofs Proofs.LocustParse Proofs.LocustBlocks
+  Proofs.ScriptProofs Proofs.PegProofs Proofs.LocustParse Proofs.LocustBlocks Proofs.LocustIndent
   Model.Cmds Model.ListExec Model.CondLine Proofs.ListExecProofs Proofs.CmdsProofs Proofs.CondProofs.
 From Coq Require Import ZArith String Ascii.
 
@@ -112,6 +112,60 @@ Proof. exact parse_blocks. Qed.
 Theorem C14_parse_partial_from : forall b, frag_block b = true ->
   parse_from l_grammar L_EXP (render_block b) = PFuel \/ parse_ok b.
 Proof. exact parse_blocks_from. Qed.
+
+(** Round 9 -- indentation and blank lines. The fragment [fragI_block] is [frag_block] (the whole tree
+    language in the newline spelling: command lines, break / continue, if / else if / else, for, while,
+    nested to ANY depth, every body non-empty) PLUS
+      - any number of spaces / tabs before every statement line, before every `else if` / `else` / `fi`
+        and before every `done` (each line its own indentation, no discipline required; none trailing:
+        command lines, conditions and word lists still do not end with white space),
+      - blank lines (empty, or spaces / tabs only) anywhere a statement may stand, bodies included.
+    NOT in the fragment: the `; then` / `; do` spelling (C14_parse_instances + L1b).
+    For every such script the generic PEG interpreter on the regenerated grammar returns, for all
+    sufficiently large fuel, the complete parse whose trimmed, EOI-stripped tree is tree_of_script
+    (a calculus of parses that may stop inside a run of blanks -- pest's unrolled e+ leaves the span of a
+    one-statement EXP_BODY after the indentation of the closing keyword -- Proofs/LocustIndent.v). *)
+Theorem C14_parse_indented : forall b, fragI_block b = true ->
+  exists kids,
+    evals l_grammar (PRef L_EXP) AtNon 0 (render_block b) (POk (List.length (render_block b)) nil kids) /\
+    map (fun k => strip_eoi L_EOI (annotate (render_block b) k)) kids = (tree_of_script b :: nil).
+Proof. exact parse_indented. Qed.
+
+Theorem C14_parse_indented_from : forall b, fragI_block b = true ->
+  parse_from l_grammar L_EXP (render_block b) = PFuel \/ parse_ok b.
+Proof. exact parse_indented_from. Qed.
+
+(** the round-3 fragment is the special case without indentation and blank lines *)
+Theorem C14_parse_indented_extends : forall b, frag_block b = true -> fragI_block b = true.
+Proof. exact (proj1 frag_sub). Qed.
+
+Check C14_parse_indented : forall b, fragI_block b = true ->
+  exists kids,
+    evals l_grammar (PRef L_EXP) AtNon 0 (render_block b) (POk (List.length (render_block b)) nil kids) /\
+    map (fun k => strip_eoi L_EOI (annotate (render_block b) k)) kids = (tree_of_script b :: nil).
+Check C14_parse_indented_from : forall b, fragI_block b = true ->
+  parse_from l_grammar L_EXP (render_block b) = PFuel \/ parse_ok b.
+Check C14_parse_indented_extends : forall b, frag_block b = true -> fragI_block b = true.
+
+(** Non-vacuity: an indented, nested if / else if / else + for + while script with blank lines (mixed tabs
+    and spaces, a one-statement body before an indented `fi`, a differently indented `done`) is in the new
+    fragment, not in the old one, and the computed-fuel parser does deliver its ideal tree. *)
+Definition wit_ind : block :=
+  BCons (SBlank i0)
+ (BCons (SCmd i2 (S2 "echo a  b"))
+ (BCons (SWhile i0 false (S2 "seq k 0,0,1")
+           (BCons (SIf it false (S2 "test -f x") (BCons (SBreak (S2 "    ")) BNil)
+                     (AElif i2 false (S2 "grep -q a b") (BCons (SBlank it) (BCons (SCmd (S2 "   ") (S2 "y")) BNil))
+                     (AElse it (BCons (SCmd (S2 "      ") (S2 "ls | wc; date")) (BCons (SCont it) BNil)) i2)))
+           (BCons (SBlank i2)
+           (BCons (SFor i2 false (S2 "_v1") (S2 "a b2 $NOPE")
+                     (BCons (SWhile (S2 "    ") false (S2 "false") (BCons (SCmd it (S2 "x")) BNil)) BNil))
+           (BCons (SCmd i2 (S2 "echo $i")) BNil)))))
+ (BCons (SIf i0 false (S2 "true") (BCons (SCmd it (S2 "z")) BNil) (ANone it))
+  BNil))).
+Example C14_parse_indented_nonvacuous :
+  fragI_block wit_ind = true /\ frag_block wit_ind = false /\ parse_ok wit_ind.
+Proof. split; [vm_compute; reflexivity|]. split; [vm_compute; reflexivity|]. prove_parse_ok. Qed.
 
 (** flat scripts (round 2) are the depth-0 case *)
 Theorem C14_parse_flat : forall b, frag_flat b = true ->
@@ -270,6 +324,9 @@ Print Assumptions C14_interp_inv.
 Print Assumptions C14_cond_list.
 Print Assumptions C14_parse_partial.
 Print Assumptions C14_parse_partial_from.
+Print Assumptions C14_parse_indented.
+Print Assumptions C14_parse_indented_from.
+Print Assumptions C14_parse_indented_extends.
 Print Assumptions C14_parse_while_pos.
 Print Assumptions C14_parse_instances.
 Print Assumptions C14_anchor_sound.
